@@ -107,6 +107,25 @@ theorem C07_cleanNum_no_whitespace (num : String) :
   · have := (List.mem_filter.mp h).2
     simpa using this
 
+/-- the class of `whitespace_re` (regenerated) contains every code point that Python's `\s` matches (table of the running
+interpreter): the statement above is about white space as the property means it -/
+theorem C07_whitespace_class_is_python_s :
+    pyReSpaceCodes.all (fun n => eidWsRanges.any fun (lo, hi) => lo ≤ n && n ≤ hi) = true := by decide +kernel
+
+/-- …so a cleaned num contains no character that Python's `\s` matches -/
+theorem C07_cleanNum_no_python_whitespace (num : String) :
+    ∀ c ∈ (cleanNum num).toList, pyReSpaceCodes.contains c.toNat = false := by
+  intro c hc
+  have h1 := C07_cleanNum_no_whitespace num c hc
+  cases hm : pyReSpaceCodes.contains c.toNat with
+  | false => rfl
+  | true =>
+    have hall := C07_whitespace_class_is_python_s
+    rw [List.all_eq_true] at hall
+    have := hall c.toNat (by simpa using hm)
+    simp only [inRanges] at h1
+    rw [this] at h1; cases h1
+
 /-- F12: an eId already on an exempt element (a table cell) is not removed. -/
 theorem C07_counterexample_exempt_keeps_eid :
     ((rewriteAll (.elem "td" [("eId", "foo")] [.elem "p" [] [.text "x"]]) "").1.attrs.lookup "eId") = some "foo" := by
